@@ -49,7 +49,8 @@ CLAIMED = {
               "strings over three 16-symbol lexical alphabets with the specification's verdict from Lexical.tla; the real lexer and graphql_sync must "
               "raise nothing but GraphQLSyntaxError on each. Code->spec: truncation/substitution sweeps through the five parse entry points (nesting 1..100) "
               "and a seeded pipeline sweep (sources x variables x operation names x resolvers raising/returning 19 exception classes, sync and async) whose "
-              "formatted results TLC evaluates against Pipeline.tla's WellFormedResult (response-format section 7.1)."),
+              "formatted results TLC evaluates against Pipeline.tla's WellFormedResult (response-format section 7.1)."
+              " The variables dimension includes generated adversarial values (huge ints, keys whose case mapping changes their length, non-string keys, deep / self-referential values, the numeric tower); resolvers and type resolution (resolve_type / is_type_of, sync or awaitable) raise or return exceptions with unrelated attributes of the names located_error looks at."),
         design_ref="DESIGN.md 5/C01",
         note="Trusted: Lexical.tla/Pipeline.tla transcriptions; 'any class' = Exception subclasses; RecursionError beyond nesting 100 excluded.",
         technique="TLC enumeration of LexEnum.tla (spec->code) + TLC evaluation of recorded results against Pipeline.tla (code->spec)",
@@ -61,7 +62,8 @@ CLAIMED = {
               "variable/default/missing rules, CompleteValue with non-null/list/leaf/abstract/object cases, error propagation). Seeded abstract cases "
               "(4 000 quick / 40 000 thorough) are rendered to real schema/document/data objects and executed with execute_sync three times on shared objects; "
               "TLC evaluates Execute on every recorded case and compares data incl. key order, the set and number of error paths and the argument map of every "
-              "resolver call; repeated and interleaved executions must be identical."),
+              "resolver call; repeated and interleaved executions must be identical."
+              " The domain includes list variables, documents parsed without locations (cross-request caches keyed by nodes) and input object literals with variables inside (CoerceObj)."),
         design_ref="DESIGN.md 5/C02",
         note="Trusted: Execute.tla as the reading of spec section 6; gqlmini renderers; documents are filtered by the real validate(); custom scalars/middleware out of scope.",
         technique="TLC evaluation of recorded real executions against the transcribed specification algorithm Execute.tla",
@@ -72,7 +74,8 @@ CLAIMED = {
               "is independently sync or bound to a harness gate; per request every completion order of the gates the code really has pending is executed by "
               "re-execution on a deterministic loop (random orders beyond the run budget). TLC (AsyncV.tla) checks each async response against Execute.tla "
               "(same data, same nulled positions), against the fully synchronous execution, for well-formedness (errors end at/below a null, data null only "
-              "with a root error) and, for mutations, that the root-field index never decreases in the interleaved call/completion log."),
+              "with a root error) and, for mutations, that the root-field index never decreases in the interleaved call/completion log."
+              " I-spec: AsyncExec.tla models the executor's scheduling (position tree without the synchronous short-circuits, Settle(g) with the rules of execute_fields / gather_with_cancel / settle_in_background / list draining / serial root fields); TLC explores every completion order of a batch of requests (Confluence with Execute.tla, Progress, Seriality, Orphans) and replays every order executed on the real executor, comparing the set of pending gates after every step (MODEL-DRIFT). Seriality also covers resolver coroutines that were cancelled but have not finished unwinding."),
         design_ref="DESIGN.md 5/C03",
         note="One gate completes per quiescent point; error entries below an already nulled position are not compared (only nulled positions are); the id()-keyed memo defect F2 was found through C04 and is fixed.",
         technique="exhaustive re-execution of completion orders on a deterministic event loop + TLC evaluation against Execute.tla/AsyncV.tla",
@@ -106,7 +109,8 @@ CLAIMED = {
               "injected at a random step; after each stop the environment completes every gate the execution did not cancel, and the quiescent observation "
               "(awaiting callers, pending tasks, per-source started/exhausted/aclose counters, hook calls and tracked work at hook time) is evaluated by TLC "
               "against Settled.tla (L1-L4). StreamQueue.tla, an I-spec of stream_item_queue.py, is model checked for order, cleanup-once, no lost failure and "
-              "termination (it reproduces findings F15/F11 when the repaired rules are switched off)."),
+              "termination (it reproduces findings F15/F11 when the repaired rules are switched off)."
+              " Stops are injected at quiescent points and as armed stops (the consumer stops in reaction to a resolver or source resuming, in that loop step or the next), which reaches the window between a task's completion and its callbacks."),
         design_ref="DESIGN.md 5/C06",
         note="Environment fairness assumed (uncancelled gates eventually complete); abort with nobody awaiting judged after the next pull; tracked work = executor's future sets; three genuine defects are listed in known_findings.json (F7, F14, F18).",
         technique="exhaustive stop-point re-execution on a deterministic loop + TLC evaluation of observations against Settled.tla + TLC model checking of StreamQueue.tla",
@@ -188,7 +192,8 @@ CLAIMED = {
               "and type-directed values, broken variants and an edge palette - as runtime values, as literals and through variables - TLC checks every accepted "
               "result against Conforms; the agreement laws (coerce accepts iff validate reports nothing, for values and literals; value->literal->coerce is the "
               "identity; ValuesOfCorrectTypeRule accepts iff literal coercion succeeds; variables yield errors xor values; nothing raises) are evaluated on the "
-              "real functions."),
+              "real functions."
+              " A7: a literal containing a variable coerces, with the variable provided, like the literal with its value, and, with it absent, like the literal without that field; A3 also goes through the printed text of the literal."),
         design_ref="DESIGN.md 5/C15",
         note="Agreement laws A1/A1'/A3/A4/A5/A6 are metamorphic relations between library functions; Conforms (A2, A5) is decided by TLC. Custom scalars are outside the statement and excluded.",
         technique="TLC evaluation of accepted coercion results against Conforms (Coerce.tla) + agreement laws between coercion, validation, literal conversion and the validation rule",
@@ -232,7 +237,8 @@ CLAIMED = {
               "up to length 5 (quick) / 6 (thorough) and computes Loc for every offset from spec/Location.tla; the real "
               "get_location, token line/column, syntax-error locations, formatted dicts, str(error) and print_source_location "
               "excerpts (4 location offsets) are compared for every (string, offset). Larger erroneous documents are recorded "
-              "and their reported locations are evaluated by TLC (LocationV.tla)."),
+              "and their reported locations are evaluated by TLC (LocationV.tla)."
+              " V records also carry the (start, line, column) of every lexer token of larger texts and block-string snippets, and errors that blame nodes of two sources (concat_ast, schema + extension) are judged per node source."),
         design_ref="DESIGN.md 5/C10",
         note="Trusted: Location.tla's reading of the line-terminator definition; harness rendering of symbols; offsets strictly inside CR LF are excluded.",
         technique="TLC enumeration of Location.tla (spec->code) + TLC evaluation of recorded error locations (code->spec)",
